@@ -150,6 +150,33 @@ def run_check(args):
             rp["replay_result"] = out
             with open(path, "w") as fh:
                 json.dump(rp, fh, indent=1, default=str)
+            if status != "reproduced":
+                # the solver's model refutes an intermediate obligation (a callee's precondition, a
+                # loop invariant): it need not be an input on which the function's own postcondition
+                # fails.  Bounded native search of the same input case for one that does.
+                if f.get("case") is not None and not str(o["contract"]).startswith("lemma:"):
+                    spath = path[:-5] + "_search.json"
+                    srp = dict(rp, search=dict(case_index=f.get("case"), seed=0, budget_s=20.0), witness=None, replay_result=None)
+                    with open(spath, "w") as fh:
+                        json.dump(srp, fh, indent=1, default=str)
+                    rc, out3 = M.run_replay(spath)
+                    n_replayed += 1
+                    if out3.get("status") == "reproduced":
+                        srp["search"]["search_index"] = out3.get("search_index")
+                        srp["replay_result"] = out3
+                        srp["note"] = (srp.get("note") or "") + " | failing input found by bounded native search of the input case (the solver's model refutes only the intermediate obligation)"
+                        with open(spath, "w") as fh:
+                            json.dump(srp, fh, indent=1, default=str)
+                        out, status, path = out3, "reproduced", spath
+                        f = dict(f, witness=out3.get("sample"))
+                    else:
+                        rp["native_search"] = out3
+                        with open(path, "w") as fh:
+                            json.dump(rp, fh, indent=1, default=str)
+                        try:
+                            os.remove(spath)
+                        except OSError:
+                            pass
             cand = dict(key=key, path=path, status=status, witness=f.get("witness"), observed=out.get("observed"))
             if status == "reproduced":
                 best = cand
